@@ -24,7 +24,7 @@ def _(w, e):
 MUTATIONS = ["direction", "port_width", "port_arrayness", "cable_width", "move_other_instance", "move_other_port",
              "move_other_bit", "move_top_port_bit", "repoint", "property_value", "property_added", "property_dropped",
              "drop_instance", "add_instance", "drop_cable", "add_cable", "drop_port", "add_port", "drop_definition",
-             "add_definition", "add_library", "swap_pin_order"]
+             "add_definition", "add_library", "swap_pin_order", "move_other_wire"]
 
 
 class Mutator:
@@ -146,6 +146,24 @@ class Mutator:
                 q = p.instance.pins.get(ip)
                 if q is not None and q.wire is None:
                     return self._replace(d, wr, p, q)
+        return None
+
+    def m_move_other_wire(self):
+        """The same pin, moved to another bit of the same cable (appended there)."""
+        c = self._wire_pins(lambda x: True)
+        self.r.shuffle(c)
+        for d, wr, p in c[:12]:
+            others = [x for x in wr.cable.wires if x is not wr and self.hd(x)]
+            if not others:
+                continue
+            # prefer the case a pin-sequence comparison cannot see: the last pin of its wire onto a neighbouring bit
+            others.sort(key=lambda x: (len(x.pins) > 0, self.r.random()))
+            to = others[0] if self.r.random() < 0.6 else self.r.choice(others)
+            ref = self._ref(p)
+            if not ref:
+                continue
+            return [{"op": "disconnect_pin", "on": self.hd(wr), "pin": ref},
+                    {"op": "connect_pin", "on": self.hd(to), "pin": ref}]
         return None
 
     def m_move_top_port_bit(self):
